@@ -338,6 +338,11 @@ class Runner:
             self.pending_touched = getattr(self, "pending_touched", set()) | self.last_touched
             self.stats["sparse-steps"] += 1
             return
+        if "ctag" in self.obs and op != "AUDIT":
+            # the tags are read once before the audit's own requests (listings of every collection and of
+            # their parents are reads too: the observer below compares the tags after them with these)
+            self.obs_ctag(step)
+            self.stats["ctag:pre-audit-reads"] += 1
         self.audit(touched or set(), full=(op in ("RESTART", "AUDIT")), fe=step.get("afe", "wsgi"), step=step)
         for name in ("uid", "etagviews", "ctag", "git", "sync", "props", "hrefs"):
             if name in self.obs:
@@ -562,6 +567,33 @@ class Runner:
         self.last = {"op": st.get("method", "GET"), "resp": r, "coll": coll, "name": name, "hdrs": hdrs, "ack": False}
         if name is not None:
             self.expect_cond(st.get("method", "GET"), st, r, False, coll, name, hdrs)
+        if r.status >= 500:
+            self.stats["5xx"] += 1
+            self.note5xx(st, r)
+        return set()
+
+    def op_READ(self, st):
+        """A read-only request on any URL (collections, their parents, the principal, the root): nothing may
+        change.  kind: propfind | get | head | options | calendar-query | sync | multiget-empty"""
+        path = st["path"]
+        kind = st["kind"]
+        hdrs, body, method = [], None, "GET"
+        if kind == "propfind":
+            method = "PROPFIND"
+            props = [P_ETAG, P_RT, P_DISPLAYNAME, P_SYNC, P_CTAG, "{DAV:}supported-report-set", "{DAV:}getcontenttype", "{DAV:}current-user-principal", "{urn:ietf:params:xml:ns:caldav}supported-calendar-component-set", "{DAV:}owner"]
+            body = dav.propfind_body(allprop=True) if st.get("allprop") else dav.propfind_body(props)
+            hdrs = [("Depth", str(st.get("depth", 0))), dav.XML_CT]
+        elif kind in ("get", "head", "options"):
+            method = kind.upper()
+        elif kind == "calendar-query":
+            method, body, hdrs = "REPORT", dav.calquery_body(dav.MATCH_ALL_CAL), [("Depth", "1"), dav.XML_CT]
+        elif kind == "sync":
+            method, body, hdrs = "REPORT", dav.sync_body(""), [dav.XML_CT]
+        else:
+            method, body, hdrs = "REPORT", dav.multiget_body("calendar", []), [dav.XML_CT]
+        r = self.req(st["fe"], method, path, hdrs, body)
+        self.last = {"op": "READ", "resp": r, "coll": None, "ack": False}
+        self.stats["read:" + kind] += 1
         if r.status >= 500:
             self.stats["5xx"] += 1
             self.note5xx(st, r)
